@@ -9,7 +9,7 @@ INFO = {
     "assumptions": ['as C03'],
 }
 MANIFEST = {
-    "text": "A wire monitor replaces the transport send: every byte sequence handed to it must be one well-formed PDU of the negotiated version with length field = bytes sent <= the client's maximum. The real Error Report senders are decided for every encapsulable PDU type with all bits symbolic (echo must equal the network-order bytes 'as received', computed by an independent decoder); rtr_receive_pdu on an arbitrary stream and rtr_sync on skeletons decide which violation produces which report (code, echo, text made of printable characters -- unconstrained stack bytes cannot satisfy that) and that none is sent in reply to an Error Report.",
+    "text": "A wire monitor replaces the transport send: every byte sequence handed to it must be one well-formed PDU of the negotiated version with length field = bytes sent <= the client's maximum. The real Error Report senders are decided for every encapsulable PDU type with all bits symbolic (echo must equal the network-order bytes 'as received', computed by an independent decoder); rtr_receive_pdu on an arbitrary stream and rtr_sync on skeletons decide which violation produces which report (code, echo, text made of printable characters -- unconstrained stack bytes cannot satisfy that) and that none is sent in reply to an Error Report. The real tr_send_all, which the monitor stands in for elsewhere, is decided to put exactly the PDU's bytes in order on a transport that splits the writes arbitrarily.",
     "note": 'Partial writes of the transport: tr_send_all unit (C04). In the rtr_sync unit the sender is a recording contract stub whose behaviour is proved on the real sender in the errpdu jobs.',
     "technique": 'CBMC wire monitor on real packets.c senders + receive path + rtr_sync skeletons',
 }
